@@ -100,6 +100,23 @@ F23cancel == MkT(O2, S3, <<<<2, -2, 0>>, <<0, 5, 6>>>>, NoMd, NoMd, "OTU table",
 F23lead0  == MkT(O2, S3, <<<<0, 0, 0>>, <<1, 0, 2>>>>, NoMd, NoMd, "OTU table", "")
 F23neg    == MkT(O2, S3, <<<<-3, 0, -1>>, <<0, 5, 6>>>>, OMD2, NoMd, "OTU table", "")
 MBq   == Mk(<<"o2", "o3">>, <<"s2", "s1">>, <<<<5, 6>>, <<7, 8>>>>, OMDb, NoMd, "")
+\* round-4 additions
+\* one numeric category holding a whole number on the first ID and fractions later
+OMDmix == MdRows(<< <<N1("ph", "i", "7")>>, <<N1("ph", "f", "6.5")>> >>)
+F23mix == MkT(O2, S3, <<<<3, 1, 0>>, <<0, 5, 6>>>>, OMDmix, NoMd, "OTU table", "")
+\* the same labels on both axes (x1..x3), and a partner with both axes permuted
+X3 == <<"x1", "x2", "x3">>
+SQ33  == Mk(X3, X3, <<<<1, 2, 0>>, <<0, 3, 4>>, <<5, 0, 6>>>>, OMD3, SMD3, "OTU table")
+SQ33p == Mk(<<"x3", "x1", "x2">>, <<"x2", "x3", "x1">>, <<<<9, 8, 7>>, <<6, 5, 4>>, <<3, 2, 1>>>>, NoMd, NoMd, "")
+ME2   == Mk(<<"o3", "o4">>, <<"s2", "s1">>, <<<<5, 6>>, <<7, 0>>>>, OMDb, NoMd, "OTU table")    \* a typed operand after an untyped one
+T33n  == Mk(O3, S3, <<<<1, 0, 2>>, <<3, 0, 4>>, <<5, 6, 0>>>>, NoMd, NoMd, "")
+MP3   == Mk(<<"o2", "o3", "o1">>, <<"s4", "s5">>, <<<<1, 2>>, <<3, 4>>, <<5, 6>>>>, NoMd, NoMd, "")  \* a 3-cycle of the observations
+TZc   == Mk(O2, S3, <<<<1, 2, 0>>, <<3, 4, 0>>>>, NoMd, NoMd, "")          \* last column all zero
+TZr   == Mk(O2, S2, <<<<1, 2>>, <<0, 0>>>>, NoMd, NoMd, "")                \* last row all zero
+Z22   == Mk(O2, S2, <<<<0, 0>>, <<0, 0>>>>, NoMd, NoMd, "OTU table")       \* nothing but zeros
+\* the same categories on every ID, listed in a different order
+OMDord == MdRows(<< <<S1("k1", "x"), S1("k2", "p")>>, <<S1("k2", "q"), S1("k1", "y")>> >>)
+F23ord == MkT(O2, S3, <<<<3, 1, 0>>, <<0, 5, 6>>>>, OMDord, NoMd, "OTU table", "")
 \* axes of length 4 (C06: every permutation of an axis up to length 4)
 O4 == <<"o1", "o2", "o3", "o4">>     S4 == <<"s1", "s2", "s3", "s4">>
 OMD4 == MdRows(<< <<S1("k1", "x")>>, <<S1("k1", "y")>>, <<S1("k1", "x")>>, <<S1("k1", "p")>> >>)
@@ -108,5 +125,8 @@ T44  == Mk(O4, S4, <<<<1, 0, 2, 0>>, <<0, 3, 0, 4>>, <<5, 6, 0, 0>>, <<0, 0, 7, 
 T44p == Mk(<<"o3", "o1", "o4", "o2">>, <<"s2", "s4", "s1", "s3">>,
            <<<<1, 2, 3, 4>>, <<5, 6, 7, 8>>, <<9, 1, 2, 3>>, <<4, 5, 6, 7>>>>, NoMd, NoMd, "")
 S10 == <<"s1", "s2", "s3", "s4", "s5", "s6", "s7", "s8", "s9", "t1">>
-W2x10 == MkT(O2, S10, <<<<1, 0, 2, 0, 3, 0, 4, 0, 5, 6>>, <<0, 7, 0, 8, 0, 9, 0, 1, 2, 3>>>>, NoMd, NoMd, "OTU table", "")
+W2x10mat == <<<<1, 0, 2, 0, 3, 0, 4, 0, 5, 6>>, <<0, 7, 0, 8, 0, 9, 0, 1, 2, 3>>>>
+W2x10 == MkT(O2, S10, W2x10mat, NoMd, NoMd, "OTU table", "")
+\* ten observations (the text slicer renumbers kept rows; positions 8+ matter)
+W10x2 == MkT(S10, O2, [j \in 1..10 |-> <<W2x10mat[1][j], W2x10mat[2][j]>>], NoMd, NoMd, "OTU table", "")
 =============================================================================
